@@ -23,7 +23,8 @@
 EXTENDS Naturals, Integers, Sequences, FiniteSets, TLC
 
 CONSTANTS MaxFd,     \* descriptors FirstFd..MaxFd exist
-          Ghost      \* TRUE: file contents are tracked cell by cell; FALSE: only calls and offsets (export with real sizes)
+          Ghost,     \* TRUE: file contents are tracked cell by cell; FALSE: only calls and offsets (export with real sizes)
+          Export     \* TRUE: keep the OS calls and the history of API calls (witness paths for the replay export)
 
 FirstFd == 3
 FdSet == FirstFd..MaxFd
@@ -34,7 +35,7 @@ IsOpenFd(m, fd) == fd \in FdSet /\ m.fdt[fd] # 0
 
 Fails(m) == m.fault.at > 0 /\ (m.ncall + 1 = m.fault.at \/ (m.fault.pers /\ m.ncall + 1 >= m.fault.at))
 Bad(m, name) == [m EXCEPT !.err = @ \cup {name}]
-Logged(m, rec) == [m EXCEPT !.log = Append(@, rec)]
+Logged(m, rec) == IF Export THEN [m EXCEPT !.log = Append(@, rec)] ELSE m
 
 \* int open(path, O_RDWR|O_CREAT): creates the file when absent, never truncates
 OsOpen(m, d, p) ==
